@@ -155,10 +155,13 @@ def make_numbering(nrows):
 
 # ------------------------------------------------------------------ (2) field names
 NAME_ALPHABET = [ord(c) for c in "aifsA1_ -"] + [0xE9]
+NAME_ALPHABET_SMALL = [ord(c) for c in "ifs 1"] + [0xE9]
 KEYWORDS3 = ("if", "is", "as")
 
 
-def make_field_name(maxlen):
+def make_field_name(maxlen, alphabet=None):
+    alphabet = alphabet or NAME_ALPHABET
+
     def go(name):
         from cutplace import fields, errors
 
@@ -166,7 +169,7 @@ def make_field_name(maxlen):
         for c in name:
             o = ord(c)
             member = False
-            for a in NAME_ALPHABET:
+            for a in alphabet:
                 if o == a:
                     member = True
             assume(member)
@@ -484,6 +487,11 @@ def build(tier, seed):
                    "test hashes)" % (ml, "".join(chr(a) for a in NAME_ALPHABET)), budget_s=900 if tier == "quick" else 3000,
                    per_path_timeout=60, expect=("accepted", "refused"), functions=FUNCS, stubs=("S-FMT",)))
     shapes = [(), ("x",), ("c",), ("lo",), ("hi",), ("x", "x"), ("x", "c"), ("c", "hi"), ("lo", "c"), ("lo", "hi")]
+    if tier == "quick":
+        q.append(Query("C09/field-name/len<=3/small-alphabet", "field-name", make_field_name(3, NAME_ALPHABET_SMALL),
+                       "fields.validated_field_name: every text up to 3 characters over %r (keywords with surrounding blanks)"
+                       % "".join(chr(a) for a in NAME_ALPHABET_SMALL), budget_s=900, per_path_timeout=60,
+                       expect=("accepted", "refused"), functions=FUNCS, stubs=("S-FMT",)))
     for fmt in ("fixed", "delimited", "ods"):
         for kinds in shapes:
             if fmt == "ods" and tier == "quick" and kinds not in (("c",), ("lo", "c")):
